@@ -108,3 +108,12 @@ def rules(t):
     out.append(W3.nonce_counter_use(t, "C18.h"))
     out.append(W3.client_state_machine(t, "C18.j", "timer"))
     return out
+
+_rules_c18_w5 = rules
+def rules(t):
+    import rules.shared as shared
+    out = _rules_c18_w5(t)
+    shared.share(t, out, "C18.l", "a forged datagram cannot move the replay window (after which every authentic packet of the peer is refused and the peer times out): advance_sequence only behind the decrypt Ok-edge", "C04", ("C04.a2",))
+    shared.share(t, out, "C18.m", "a completed handshake leaves no half-open entry behind (it would shadow the next handshake from that address): the promoted session is the entry removed from pending_clients", "C05", ("C05.c2",))
+    shared.share(t, out, "C18.n", "every accepted replay-protected packet is recorded in the window, so a recorded datagram cannot be replayed to postpone the timeout of a silent peer", "C04", ("C04.g",))
+    return out
